@@ -49,6 +49,15 @@ fn main() {
         "mods-replay" => modsrep::main(rest),
         "convert-replay" => convert::replay_main(rest),
         "convert-record" => convert::record_main(rest),
+        "mods-dump" => {
+            let mut c = settings::Cfg::default().with_acronyms(&rest[0]);
+            if rest.len() > 1 {
+                c.random_seed = rest[1].parse().ok();
+            }
+            let m = c.game_mods();
+            println!("{:?}\n{:?}", m, m.verif_flags(true));
+            0
+        }
         "decode-dump" => {
             let bytes = std::fs::read(&rest[0]).expect("read");
             match rosu_pp::Beatmap::from_bytes(&bytes) {
